@@ -9,7 +9,7 @@ import re
 import subprocess
 import sys
 
-WT = "/tmp/seedwt"
+WT = os.environ.get("SEEDWT", "/tmp/seedwt")
 
 
 def sh(cmd, **kw):
